@@ -130,7 +130,7 @@ def broken_string_token_handler(lexer, token):
     # probe for the next values (which no valid rules will match)
     position = lexer.lexer.lexpos + len(token.value)
     failure = lexer.lexer.lexdata[position:position + 2]
-    if failure and failure[0] == '\\':
+    if failure[:1] == '\\' and failure[1:2] in ('x', 'u'):
         type_ = {'x': 'hexadecimal', 'u': 'unicode'}[failure[1]]
         seq = re.match(
             r'\\[xu][0-9-a-f-A-F]*', lexer.lexer.lexdata[position:]
@@ -289,6 +289,9 @@ class Lexer(object):
 
             if char != '/' or (char == '/' and next_char in ('/', '*')):
                 tok = self._get_update_token()
+                if tok is None:
+                    # only ignorable characters were left
+                    return tok
                 if tok.type in DIVISION_SYNTAX_MARKERS:
                     if tok.type in COMMENTS:
                         if self.yield_comments:
